@@ -71,6 +71,18 @@ def impl(case):
     if case["W"] is not None:
         curve.weights = nums(case["W"])
     before = curve_state(curve)
+    # the same request on float (and int) copies of the data first, in the same process: exact results must not
+    # depend on what was computed before (memo tables keyed by equal-comparing numbers)
+    import implib
+
+    def _other(conv, convnodes):
+        c2 = Curve([conv(u) for u in nums(case["U"])], [conv(num_) for num_ in [nums(pt)[0] for pt in case["P"]]])
+        c2.knot_insert([convnodes(x) for x in nums(case["nodes"])])
+    capture(lambda: _other(float, float))
+    capture(lambda: _other(float, lambda x: x))          # float knots, the very same Fraction nodes
+    if all(u.denominator == 1 for u in nums(case["U"])):
+        capture(lambda: _other(int, lambda x: x))
+    implib.FLOATS.clear()
     r = capture(lambda: curve.knot_insert(nums(case["nodes"])) and None)
     try:
         after = curve_state(curve)
@@ -85,6 +97,8 @@ def cocurve(s):
 
 
 def emit(case, out):
+    if out.get("_floats"):            # exact input must give exact output (wf_b [] fails in Coq)
+        out = dict(out, before=dict(out["before"], U=[]))
     return ctuple(cocurve(out["before"]), cql(case["nodes"]), cres(out["r"], lambda _: "tt"), cocurve(out["after"]))
 
 
